@@ -50,7 +50,39 @@ def _no_isinstance(t, value=False):
     return t
 
 
+def rule_settings(chk: Check, view: AsyncView):
+    """set_record_settings: a value that is given (True *or* False) replaces the setting, None keeps it -- otherwise a part of the
+    recording that was switched off stays on."""
+    key = "node.set_record_settings"
+    r = view.results.get(key)
+    if r is None:
+        chk.unknown("C13.origin", "record settings", "node.set_record_settings not found")
+        return
+    fi = view.fi(key)
+    chk.used(fi.qualname)
+    table = T.mk_attr(S("self"), "_record_setting")
+    n = 0
+    for e in r.events:
+        if e.kind == "store_sub" and e.name == "self._record_setting" and e.key is not None and e.key[0] == "const" and e.key[1] in ("params", "rng", "inputs", "state", "output"):
+            k = e.key[1]
+            n += 1
+            want = T.mk_ite(T.eq(S(k), T.NONE, numeric=False), T.mk_index(table, e.key), S(k))
+            chk.add("C13.origin", f"setting {k}: a given value replaces it", (e.term == want and e.guard == T.TRUE) or (e.term == S(k) and e.guard == T.mk_not(T.eq(S(k), T.NONE, numeric=False))),
+                    f"self._record_setting[{k!r}] = {T.show(e.term)[:120]}, expected the argument `{k}` whenever it is not None (False switches that part off)", chk.loc(fi, e.node))
+        if e.kind == "call" and e.name == "self._record_setting.update" and len(e.args) == 1:
+            a = e.args[0]
+            if a[0] == "comp" and a[1] == "dict" and a[2][0] == "tuple":
+                val = a[2][1][1]
+                ok = len(a[4]) == 1 and a[4][0] == T.mk_not(T.eq(val, T.NONE, numeric=False)) and e.guard == T.TRUE
+                n += 5 if ok else 0
+                chk.add("C13.origin", "settings: a given value replaces them", ok, f"self._record_setting.update({T.show(a)[:140]}): the filter must keep every value that is "
+                        "not None (False switches that part off)", chk.loc(fi, e.node))
+                n = max(n, 5)
+    chk.floor("C13.origin", "record settings assigned", n, 5)
+
+
 def async_part(chk: Check, view: AsyncView):
+    rule_settings(chk, view)
     r = view.results["node.push_step"]
     fi = view.fi("node.push_step")
     chk.used(fi.qualname)
@@ -348,6 +380,25 @@ def compiled_part(chk: Check, model, cv: CompiledView):
             okf = v[0] == "call" and v[1] == "numpy.array" or T.const_value(v) == -1
             okf = T.const_value(v) == -1 or (v[0] == "call" and v[2] and T.const_value(v[2][0]) == -1)
             chk.add("C13.rows", f"init_record template {f} = -1", okf, f"StepRecord template {f} = {T.show(v)[:80]}", chk.loc(fi, recs[0].node))
+        # every optional field is switched by its own record setting and shaped after its own entry of the graph state (a template
+        # shaped after another field cannot take the rows written to it)
+        SETTINGS = {"params", "rng", "inputs", "state", "output"}
+        SOURCE = {"rng": "rng", "inputs": "inputs", "state": "state", "output": "buffer"}
+        n_f = 0
+        for f, src in SOURCE.items():
+            v = rec.get(f, T.NONE)
+            if v[0] != "ite":
+                continue
+            keys = {x[2][1] for x in T.walk(v[1]) if x[0] == "index" and x[2][0] == "const" and isinstance(x[2][1], str)} | {x[2] for x in T.walk(v[1]) if x[0] == "attr"}
+            keys &= SETTINGS
+            srcs = {x[2] for x in T.walk(v[2]) if x[0] == "attr" and x[1] == S("graph_state")} | \
+                   {x[1].split(".")[1] for x in T.walk(v[2]) if x[0] == "sym" and x[1].startswith("graph_state.")}
+            if not keys or not srcs:
+                continue
+            n_f += 1
+            chk.add("C13.rows", f"init_record template {f}: own setting, own source", keys == {f} and srcs == {src},
+                    f"StepRecord template {f} is switched by setting(s) {sorted(keys)} and shaped after graph_state.{sorted(srcs)}, expected {f!r} and graph_state.{src}", chk.loc(fi, recs[0].node))
+        chk.floor("C13.rows", "optional template fields", n_f, 4)
     else:
         chk.unknown("C13.rows", "init_record template", f"expected one StepRecord template in init_record, found {len(recs)}", chk.loc(fi))
     # number of rows per node: the node's runs summed over *all* partitions of the schedule (the last partition of the horizon is
